@@ -42,6 +42,17 @@ def run(ctx):
     # property's own statement on the implementation: always run; it is also the search
     # for a concrete failing input when a proof or the correspondence broke.
     ctx.stage_property_mode(exe, ["prop", ctx.seed, ctx.tier])
+    if ctx.tier == "thorough":
+        # the header-only classes again under ASan/UBSan (indeterminate reads, out-of-bounds slots,
+        # FastSmallVector misuse): same generators at the quick size
+        ok, exe_san, out = vlib.build_harness("densead", sanitize=True,
+                                              extra_flags=FLAGS + (f"-DDENSEAD_HAVE_SATAN2={1 if have_satan2 else 0}",))
+        if not ok:
+            ctx.tie_broken("harness", "densead sanitizer harness does not compile: " + out[-2000:])
+        else:
+            if not ctx.broken:
+                ctx.stage_correspondence(exe_san, ["corr", ctx.seed + 1000, "quick"], label="corr-san")
+            ctx.stage_property_mode(exe_san, ["prop", ctx.seed + 1000, "quick"], label="prop-san")
     return ctx.finish(trusted_base=TRUSTED)
 
 
